@@ -6,9 +6,10 @@
 static unsigned long long n_sizes = 0, n_good = 0, n_malloc = 0, n_slice = 0, n_div = 0, n_util = 0, n_addr = 0, n_pages = 0, n_slice_positions = 0, n_interior = 0, n_bins_addr = 0, n_giant = 0, n_giant_skipped = 0;
 static int full = 0, padding = 0;
 
+static unsigned long long n_page_ends = 0;
 static void body(FILE* f) {
-  fprintf(f, "\"arith\":{\"sizes\":%llu,\"good_size\":%llu,\"malloc_checked\":%llu,\"slice_counts\":%llu,\"divisions\":%llu,\"util_inputs\":%llu,\"address_recoveries\":%llu,\"pages\":%llu,\"distinct_slice_positions\":%llu,\"interior_offsets\":%llu,\"bins_with_real_pages\":%llu,\"giant_blocks_checked\":%llu,\"giant_blocks_refused_by_the_os\":%llu,\"full\":%d}",
-          n_sizes, n_good, n_malloc, n_slice, n_div, n_util, n_addr, n_pages, n_slice_positions, n_interior, n_bins_addr, n_giant, n_giant_skipped, full);
+  fprintf(f, "\"arith\":{\"sizes\":%llu,\"good_size\":%llu,\"malloc_checked\":%llu,\"slice_counts\":%llu,\"divisions\":%llu,\"util_inputs\":%llu,\"address_recoveries\":%llu,\"pages\":%llu,\"distinct_slice_positions\":%llu,\"interior_offsets\":%llu,\"bins_with_real_pages\":%llu,\"giant_blocks_checked\":%llu,\"giant_blocks_refused_by_the_os\":%llu,\"page_ends_checked\":%llu,\"full\":%d}",
+          n_sizes, n_good, n_malloc, n_slice, n_div, n_util, n_addr, n_pages, n_slice_positions, n_interior, n_bins_addr, n_giant, n_giant_skipped, n_page_ends, full);
 }
 #define FAIL(...) vf_trip("arith", "C16", __VA_ARGS__)
 
@@ -196,10 +197,15 @@ static void check_addresses(void) {
     n_bins_addr++;
     const int pages_wanted = (full ? 12 : 4);
     size_t per_page = (bsize <= MI_SMALL_OBJ_SIZE_MAX ? MI_SMALL_PAGE_SIZE : MI_MEDIUM_PAGE_SIZE) / bsize; if (per_page == 0) per_page = 1;
-    size_t count = per_page * (size_t)pages_wanted; if (count > 3000) count = 3000;
+    // (at least two pages are filled COMPLETELY: the last blocks of a page -- handed out only when all others are live -- are where an area that is one block too long shows)
+    size_t count = per_page * (size_t)pages_wanted; if (count > 3000) count = (2 * per_page + 64 > 3000 ? 2 * per_page + 64 : 3000);
+    mi_page_t* prev_page = NULL; void* lastp[4] = { NULL, NULL, NULL, NULL };
     for (size_t i = 0; i < count && nh < 399000; i++) {
       void* p = mi_malloc(n); if (p == NULL) FAIL("mi_malloc(%zu) failed", n);
       hold[nh++] = p;
+      mi_page_t* pg = _mi_ptr_page(p);
+      if (pg != prev_page) { for (int k = 0; k < 4; k++) if (lastp[k] != NULL) check_block_addresses(lastp[k], n); check_block_addresses(p, n); prev_page = pg; n_page_ends++; }
+      lastp[i & 3] = p;
       if (i % (per_page > 64 ? per_page / 16 : 1) == 0 || i < 4 || i + 4 > count) check_block_addresses(p, n);
       // a filler of a random other size now and then, so that the next page of this bin starts at another slice
       if (i % per_page == per_page - 1 && nh < 399000) hold[nh++] = mi_malloc(1 + (size_t)vf_rng_below(&r, 200000));
